@@ -23,3 +23,66 @@ Definition chk_stream (c : list resp * bytes) : bool :=
 Definition chk_build (c : pyval * bytes) : bool := bytes_eqb (pstr (fst c)) (snd c).
 Definition chk_mailbox (c : list N * bytes) : bool := bytes_eqb (print_mailbox (fst c)) (snd c).
 Definition chk_datetime (c : datetime * bytes) : bool := bytes_eqb (print_datetime (fst c)) (snd c).
+
+(* ------------------------------------------------- the producer model *)
+From PV Require Import Resp.Producer.
+
+Fixpoint is_prefix (a b : bytes) : bool :=
+  match a, b with
+  | [], _ => true
+  | x :: a', y :: b' => (x =? y)%N && is_prefix a' b'
+  | _ :: _, [] => false
+  end.
+Definition is_suffix (a b : bytes) : bool := is_prefix (rev a) (rev b).
+
+(* (responses the model builds for a command, the bytes that command wrote):
+   the untagged responses come first, the tagged line last; updates of the
+   selected mailbox may stand between them *)
+Definition chk_frame (c : list resp * bytes) : bool :=
+  match rev (fst c) with
+  | [] => false
+  | t :: u =>
+    is_prefix (print_stream (rev u)) (snd c) && is_suffix (print_resp t) (snd c) &&
+    (Nat.leb (length (print_stream (fst c))) (length (snd c))) && forallb wf_resp (fst c)
+  end.
+
+Definition opt_pair_eqb (a b : option (bytes * bytes)) : bool :=
+  match a, b with
+  | None, None => true
+  | Some (x, y), Some (x', y') => bytes_eqb x x' && bytes_eqb y y'
+  | _, _ => false
+  end.
+Definition chk_parse_tag (c : bytes * option (bytes * bytes)) : bool :=
+  opt_pair_eqb (parse_tag (fst c)) (snd c).
+Definition chk_parse_atom (c : bytes * option (bytes * bytes)) : bool :=
+  opt_pair_eqb (parse_atom (fst c)) (snd c).
+Definition chk_parse_flag (c : bytes * option (bytes * bytes)) : bool :=
+  opt_pair_eqb (parse_flag (fst c)) (snd c).
+(* (byte, Tag._pattern matches it, _atom_pattern matches it) *)
+Definition chk_class (c : N * bool * bool) : bool :=
+  let '(b, t, a) := c in Bool.eqb (py_tag_char b) t && Bool.eqb (py_atom_char b) a.
+Definition chk_attrs (c : bool * option bool * bool * list bytes) : bool :=
+  let '(e, m, ch, l) := c in eqb_list bytes_eqb (list_attributes e m ch) l.
+Definition chk_oid (c : N * bytes) : bool := bytes_eqb (mailbox_id_of (fst c)) (snd c).
+Definition chk_validity (c : N * N * N) : bool :=
+  let '(t, r, v) := c in (uid_validity_of t r =? v)%N.
+
+(* the small producer checks as one case type (one Coq run) *)
+Inductive leaf_case :=
+| LClass (b : N) (t a : bool)
+| LAttrs (e : bool) (m : option bool) (ch : bool) (l : list bytes)
+| LOid (bits : N) (b : bytes)
+| LValidity (t r v : N)
+| LTag (buf : bytes) (o : option (bytes * bytes))
+| LAtom (buf : bytes) (o : option (bytes * bytes))
+| LFlag (buf : bytes) (o : option (bytes * bytes)).
+Definition chk_leaf (c : leaf_case) : bool :=
+  match c with
+  | LClass b t a => chk_class (b, t, a)
+  | LAttrs e m ch l => chk_attrs (e, m, ch, l)
+  | LOid bits b => chk_oid (bits, b)
+  | LValidity t r v => chk_validity (t, r, v)
+  | LTag buf o => chk_parse_tag (buf, o)
+  | LAtom buf o => chk_parse_atom (buf, o)
+  | LFlag buf o => chk_parse_flag (buf, o)
+  end.
